@@ -163,6 +163,7 @@ class World:
             "name": "roguetoken", "symbol": "ROGUE", "decimals": 6,
             "initial_balances": [{"address": a, "amount": str(BAL)} for a in ("attacker", "trader1", "by1")],
             "mint": None})
+        self.decimals[self.rogue] = 6
         for _, d in self.natives:
             dec = rng_.choice([0, 6, 6, 8, 18])
             self.decimals[d] = dec
